@@ -7,7 +7,11 @@ use std::time::Instant;
 use serde_json::json;
 use serde_json::Value;
 
-pub const VERIF_ROOT: &str = "/verif";
+/// Root of the verification tree (set by ./check to its own directory, so a
+/// snapshot run writes its evidence into the snapshot).
+pub fn verif_root() -> String {
+    std::env::var("VX_VERIF_ROOT").unwrap_or_else(|_| "/verif".to_string())
+}
 
 #[derive(Clone, Debug)]
 pub struct Violation {
@@ -28,7 +32,7 @@ pub struct Known {
 }
 
 pub fn load_known() -> Vec<Known> {
-    let p = format!("{}/known_findings.json", VERIF_ROOT);
+    let p = format!("{}/known_findings.json", verif_root());
     let Ok(s) = std::fs::read_to_string(&p) else {
         return vec![];
     };
@@ -124,8 +128,8 @@ impl Reporter {
         let mut code = 0;
         for (k, (n, v)) in &g.violations {
             let h = fxhash(&format!("{}{}", k, v.replay));
-            let path = format!("{}/replays/{}-{:016x}.json", VERIF_ROOT, self.prop, h);
-            let _ = std::fs::create_dir_all(format!("{}/replays", VERIF_ROOT));
+            let path = format!("{}/replays/{}-{:016x}.json", verif_root(), self.prop, h);
+            let _ = std::fs::create_dir_all(format!("{}/replays", verif_root()));
             let body = json!({
                 "property": self.prop,
                 "key": k,
@@ -153,8 +157,8 @@ impl Reporter {
             "wall_s": wall,
             "violations": g.violations.values().map(|v| v.0).sum::<u64>(),
         });
-        let _ = std::fs::create_dir_all(format!("{}/evidence", VERIF_ROOT));
-        let path = format!("{}/evidence/{}.json", VERIF_ROOT, self.prop);
+        let _ = std::fs::create_dir_all(format!("{}/evidence", verif_root()));
+        let path = format!("{}/evidence/{}.json", verif_root(), self.prop);
         std::fs::write(&path, serde_json::to_string_pretty(&ev).unwrap()).expect("write evidence");
         if code == 0 {
             println!(
